@@ -5,3 +5,5 @@ INVARIANT Inv_Line
 INVARIANT Inv_NoShift
 INVARIANT Inv_Column
 INVARIANT Inv_TableRefines
+INVARIANT Inv_NoLocationWithoutConstruct
+INVARIANT Inv_LocationComputed
